@@ -27,6 +27,8 @@ DRV = 'amd/driver/driver.go'
 CPM = 'amd/timing/cp/cpMiddleware.go'
 ALLOC = 'amd/driver/internal/memoryallocator.go'
 GRID = 'amd/kernels/gridbuilder.go'
+MI300 = 'amd/samples/runner/timingconfig/mi300a/builder.go'
+R9 = 'amd/samples/runner/timingconfig/r9nano/builder.go'
 SEED3 = open('/verif/selftest/c18/seed3_flush_only_owners.diff').read() if os.path.exists('/verif/selftest/c18/seed3_flush_only_owners.diff') else None
 
 def nth(s, old, new, k):
@@ -99,6 +101,9 @@ M = [
  ('wgfilter-z-stride-doubled', DRV, lambda s: s.replace('wg.IDZ*int(numWGX)*int(numWGY) +', 'wg.IDZ*int(numWGX)*int(numWGY)*2 +')),
  ('wgdist-total-ignores-z', DRV, lambda s: s.replace('totalWGCount := int(numWGX * numWGY * numWGZ)', '_ = numWGZ\n\ttotalWGCount := int(numWGX * numWGY)')),
  ('wgdist-rows-from-workgroup-size-x', DRV, lambda s: s.replace('numWGY := (cmd.PacketArray[0].GridSizeY-1)/uint32(cmd.PacketArray[0].WorkgroupSizeY) + 1', 'numWGY := (cmd.PacketArray[0].GridSizeY-1)/uint32(cmd.PacketArray[0].WorkgroupSizeX) + 1')),
+ ('seed6-mi300a-local-window-128gb', MI300, lambda s: s.replace('dramSize:                       4 * mem.GB,', 'dramSize:                       128 * mem.GB,')),
+ ('r9nano-local-window-8gb', R9, lambda s: s.replace('dramSize:                       4 * mem.GB,', 'dramSize:                       8 * mem.GB,')),
+ ('mi300a-local-window-starts-at-zero', MI300, lambda s: s.replace('b.l1AddressMapper.LowAddress = b.memAddrOffset', 'b.l1AddressMapper.LowAddress = 0')),
  ('magic-h2d-sizeLeftInPage-ignores-offset', GS, lambda s: nth(s, 'sizeLeftInPage := page.PageSize - (addr - page.VAddr)', 'sizeLeftInPage := page.PageSize', 0)),
  ('dma-h2d-sizeLeftInPage-ignores-offset', MC, lambda s: nth(s, 'sizeLeftInPage := page.PageSize - (addr - page.VAddr)', 'sizeLeftInPage := page.PageSize', 0)),
 ]
